@@ -44,6 +44,11 @@ Definition session_new (nwk app : list N) (addr : N) : session :=
 (* add_mac_command: admitted iff pending.len() + payload_len < 15 *)
 Definition add_mac_command (pending : list N) (cmd : list N (* cid :: payload *)) : list N :=
   if Nat.ltb (length pending + (length cmd - 1)) 15 then pending ++ cmd else pending.
+Definition fits (pending cmd : list N) : bool := Nat.ltb (length pending + (length cmd - 1)) 15.
+(* the answer! macro of handle_downlink_macs: (pending, answers_full) *)
+Definition push_answer (pf : list N * bool) (cmd : list N) : list N * bool :=
+  let '(p, full) := pf in
+  if full then (p, true) else if fits p cmd then (p ++ cmd, false) else (p, true).
 
 (* clear_mac_commands(true): re-parse pending as uplink commands, keep DlChannelAns(0x0A) RXParamSetupAns(0x05) RXTimingSetupAns(0x08) *)
 Definition retain_acks (pending : list N) : list N :=
@@ -105,7 +110,8 @@ Section MacCrypto.
        cf_rx2_data_rate := cf_rx2_data_rate cf; cf_rx2_frequency := cf_rx2_frequency cf; cf_adr := cf_adr cf |}.
 
   (* state threaded through handle_downlink_macs *)
-  Record hstate := { h_cf : configuration; h_rg : region; h_pending : list N; h_mask : mask; h_nadr : nat; h_known : bool }.
+  Record hstate := { h_cf : configuration; h_rg : region; h_pending : list N; h_full : bool; h_mask : mask; h_nadr : nat; h_known : bool }.
+  Definition h_pf (h : hstate) : list N * bool := (h_pending h, h_full h).
 
   Definition is_linkadr (it : item) : bool := match it with IOk 0x03 _ => true | _ => false end.
 
@@ -113,7 +119,8 @@ Section MacCrypto.
   Definition handle_cmd (snr : Z) (h : hstate) (cid : N) (p : list N) (next_is_adr : bool) : outcome hstate :=
     let cf := h_cf h in let rg := h_rg h in let r := rg_id rg in
     let b i := nthN p i in
-    let upd_pending cmd := {| h_cf := h_cf h; h_rg := h_rg h; h_pending := add_mac_command (h_pending h) cmd;
+    let upd_pending cmd := {| h_cf := h_cf h; h_rg := h_rg h; h_pending := fst (push_answer (h_pf h) cmd);
+                              h_full := snd (push_answer (h_pf h) cmd);
                               h_mask := h_mask h; h_nadr := h_nadr h; h_known := h_known h |} in
     match cid with
     | 0x06 => (* DevStatusReq: battery 255, margin = snr if -32..=31 else 0 (set_margin error ignored) *)
@@ -125,7 +132,8 @@ Section MacCrypto.
       | PDyn pl =>
         let '(pl', (af, ac)) := dyn_dl_update r pl (b 0%nat) (le_value (slice p 1 4) * 100) in
         Val {| h_cf := cf; h_rg := {| rg_id := r; rg_plan := PDyn pl' |};
-               h_pending := add_mac_command (h_pending h) [0x0A; bitsN af ac false];
+               h_pending := fst (push_answer (h_pf h) [0x0A; bitsN af ac false]);
+               h_full := snd (push_answer (h_pf h) [0x0A; bitsN af ac false]);
                h_mask := h_mask h; h_nadr := h_nadr h; h_known := h_known h |}
       end
     | 0x03 => (* LinkADRReq *)
@@ -136,7 +144,7 @@ Section MacCrypto.
       | Val mo =>
         let '(msk, known) := match mo with Some m' => (m', h_known h) | None => (h_mask h, false) end in
         if next_is_adr then
-          Val {| h_cf := cf; h_rg := rg; h_pending := h_pending h; h_mask := msk; h_nadr := nadr; h_known := known |}
+          Val {| h_cf := cf; h_rg := rg; h_pending := h_pending h; h_full := h_full h; h_mask := msk; h_nadr := nadr; h_known := known |}
         else
           let drf := N.shiftr (b 0%nat) 4 in let pwf := N.land (b 0%nat) 0x0f in
           let dr : option N := if drf =? 15 then Some (cf_data_rate cf)
@@ -152,8 +160,8 @@ Section MacCrypto.
                                | _, _, _ => (cf, rg) end in
             let ans := [0x03; bitsN cm_ack (match dr with Some _ => true | None => false end)
                                            (match pw with Some _ => true | None => false end)] in
-            let pend := fold_left (fun acc _ => add_mac_command acc ans) (seq 0 nadr) (h_pending h) in
-            Val {| h_cf := cf'; h_rg := rg'; h_pending := pend; h_mask := region_mask rg'; h_nadr := 0; h_known := true |}
+            let pend := fold_left (fun acc _ => push_answer acc ans) (seq 0 nadr) (h_pf h) in
+            Val {| h_cf := cf'; h_rg := rg'; h_pending := fst pend; h_full := snd pend; h_mask := region_mask rg'; h_nadr := 0; h_known := true |}
           end
       end
     | 0x07 => (* NewChannelReq *)
@@ -165,7 +173,8 @@ Section MacCrypto.
         match dyn_new_channel r pl (b 0%nat) (le_value (slice p 1 4) * 100) drr with
         | Val (pl', (af, ad)) =>
           Val {| h_cf := cf; h_rg := {| rg_id := r; rg_plan := PDyn pl' |};
-                 h_pending := add_mac_command (h_pending h) [0x07; bitsN af ad false];
+                 h_pending := fst (push_answer (h_pf h) [0x07; bitsN af ad false]);
+                 h_full := snd (push_answer (h_pf h) [0x07; bitsN af ad false]);
                  h_mask := h_mask h; h_nadr := h_nadr h; h_known := h_known h |}
         | Panic => Panic | OutOfDraws => OutOfDraws
         end
@@ -182,16 +191,16 @@ Section MacCrypto.
                    {| cf_data_rate := cf_data_rate cf; cf_rx1_delay := cf_rx1_delay cf; cf_tx_power := cf_tx_power cf;
                       cf_rx1_dr_offset := offv; cf_rx2_data_rate := rx2v; cf_rx2_frequency := Some freq; cf_adr := cf_adr cf |}
                  | _, _, _ => cf end in
+      let ans := [0x05; bitsN fok (match rx2 with Some _ => true | None => false end)
+                              (match off with Some _ => true | None => false end)] in
       Val {| h_cf := cf'; h_rg := rg;
-             h_pending := add_mac_command (h_pending h)
-                            [0x05; bitsN fok (match rx2 with Some _ => true | None => false end)
-                                             (match off with Some _ => true | None => false end)];
+             h_pending := fst (push_answer (h_pf h) ans); h_full := snd (push_answer (h_pf h) ans);
              h_mask := h_mask h; h_nadr := h_nadr h; h_known := h_known h |}
     | 0x08 => (* RXTimingSetupReq *)
       Val {| h_cf := {| cf_data_rate := cf_data_rate cf; cf_rx1_delay := del_to_delay_ms (N.land (b 0%nat) 0x0f);
                         cf_tx_power := cf_tx_power cf; cf_rx1_dr_offset := cf_rx1_dr_offset cf;
                         cf_rx2_data_rate := cf_rx2_data_rate cf; cf_rx2_frequency := cf_rx2_frequency cf; cf_adr := cf_adr cf |};
-             h_rg := rg; h_pending := add_mac_command (h_pending h) [0x08];
+             h_rg := rg; h_pending := fst (push_answer (h_pf h) [0x08]); h_full := snd (push_answer (h_pf h) [0x08]);
              h_mask := h_mask h; h_nadr := h_nadr h; h_known := h_known h |}
     | _ => Val h
     end.
@@ -210,7 +219,7 @@ Section MacCrypto.
   (* handle_downlink_macs over one byte string *)
   Definition handle_downlink_macs (snr : Z) (cf : configuration) (rg : region) (pending : list N) (bytes : list N)
     : outcome (configuration * region * list N) :=
-    match handle_cmds snr {| h_cf := cf; h_rg := rg; h_pending := pending; h_mask := region_mask rg; h_nadr := 0; h_known := true |}
+    match handle_cmds snr {| h_cf := cf; h_rg := rg; h_pending := pending; h_full := false; h_mask := region_mask rg; h_nadr := 0; h_known := true |}
                       (parse_all dl_mac_table bytes) with
     | Val h => Val (h_cf h, h_rg h, h_pending h)
     | Panic => Panic | OutOfDraws => OutOfDraws
